@@ -252,7 +252,8 @@ def _body(p):
     except BaseException as e:           # uncaught exception = traceback + exit 1
         p.exit = 1
         p.exc = e
-        p.exc_tb = traceback.extract_tb(e.__traceback__)
+        # extracted later, outside the simulation (linecache reads source files)
+        p.exc_tb_raw = e.__traceback__
     if not isinstance(p.exit, int):
         p.exit = 1
 
@@ -275,6 +276,11 @@ def finish(p):
         except OSError:
             pass
     p.fds.clear()
+    raw = getattr(p, 'exc_tb_raw', None)
+    if raw is not None:
+        p.exc_tb = traceback.extract_tb(raw)
+        p.exc_tb_raw = None
+        p.exc.__traceback__ = None
     if p.exc is not None:
         # the traceback a real interpreter would print; formatted outside the
         # simulation so that linecache does not go through the seam
